@@ -30,7 +30,10 @@ RULE = ("(handshake) for each of 12 handshake flavours a fault-free run "
         "offsets; (data phase) every placement of close_notify / warning "
         "alert / fatal alert / raw EOF relative to k data records x "
         "closeSocket x ignoreAbruptClose, close orders, reads and writes "
-        "after close. non-trivial = the fault fired / the closure event was "
+        "after close; close() that waits for the peer's close_notify "
+        "(closeSocket=False) with application data / post-handshake "
+        "messages of the peer in flight; the reader's courtesy close_notify "
+        "hitting a dead transport. non-trivial = the fault fired / the closure event was "
         "delivered; distinct = (scenario, endpoint, direction, offset, "
         "kind) or the data-phase case")
 ASSUMPTIONS = [
@@ -221,6 +224,10 @@ def check_data(case):
     rconn.closeSocket = case["closeSocket"]
     # drain tickets etc.
     sc.do_write(p, "s", b"")
+    if ev == "close_inflight":
+        # post-handshake control messages (TLS 1.3 tickets) are consumed
+        # first, so that only application data is in flight ...
+        sc.read_all(p, "c")
     sent = bytearray()
     for i in range(k):
         d = prg(b"C17/%d" % i, 100 + 37 * i)
@@ -229,6 +236,21 @@ def check_data(case):
             raise BaselineBroken("data-write", repr(o))
         sent += d
     # the event
+    if ev in ("close_inflight", "close_inflight_ctrl"):
+        # ... or, for _ctrl, tickets / a KeyUpdate are what is in flight
+        if ev == "close_inflight_ctrl" and sender == "c" and \
+                tuple(p.c.version) == (3, 4):
+            drive({"c": p.c.send_keyupdate_request(0)}, p.link,
+                  on_stall="leave")
+        return close_inflight(case, p, sender, reader, sent, labels)
+    if case.get("reply_fails"):
+        # the peer closes its socket right after its close_notify: the
+        # courtesy reply of the reader hits a dead transport
+        raw = rconn.sock
+        while hasattr(raw, "socket"):
+            raw = raw.socket
+        raw.tx_fault = (raw.tx_total, "pipe")
+        labels.append("reply-fails")
     if ev == "close_notify":
         o = sc.do_close(p, sender)
     elif ev == "warning":
@@ -290,6 +312,8 @@ def check_data(case):
         if sess is None or not sess.resumable:
             return bad("orderly-close-kills-resumability:" + where, "",
                        labels=labels)
+        if case.get("reply_fails"):
+            return good(labels=labels)
         # reads stay empty, writes raise the closed-connection error
         o2 = sc.do_read(p, reader, 10, 1)
         if not (o2.state == "done" and not o2.value):
@@ -352,6 +376,42 @@ def check_data(case):
     raise HarnessError(ev)
 
 
+def close_inflight(case, p, sender, reader, sent, labels):
+    """``reader`` closes (closeSocket=False: it waits for the peer's
+    close_notify) while ``sender``'s data records are still in flight ahead
+    of that close_notify: an orderly shutdown on both sides."""
+    rconn, sconn = p.conn(reader), p.conn(sender)
+    rconn.closeSocket = False
+    sconn.closeSocket = False
+    ver13 = tuple(rconn.version) == (3, 4)
+    gen = rconn.closeAsync()
+    outs, _ = drive({reader: gen}, p.link, on_stall="leave")
+    first = outs[reader]
+    # the peer sees the close_notify after having sent its data
+    o_s = sc.do_read(p, sender, 100, 1)
+    if first.state == "blocked":
+        outs, _ = drive({reader: gen}, p.link, on_stall="leave")
+        first = outs[reader]
+    where = "%s:%s" % (case["event"], "tls13" if ver13 else "tls12-")
+    fs = first.state if first.exc is None else describe_exc(first.exc)
+    labels.append("final=" + fs)
+    if first.state == "exc":
+        return bad("orderly-close-fails:" + where,
+                   "close() with %d data bytes of the peer in flight: %s" % (
+                       len(sent), fs), labels=labels)
+    for who, conn in ((reader, rconn), (sender, sconn)):
+        if conn.session is not None and not conn.session.resumable:
+            return bad("orderly-close-kills-resumability:%s:%s" % (
+                where, "closer" if who == reader else "peer"), "",
+                labels=labels)
+    if not (o_s.state == "done" and not o_s.value):
+        if o_s.state == "exc":
+            return bad("orderly-close-not-clean:" + where,
+                       "peer read: %s" % describe_exc(o_s.exc),
+                       labels=labels)
+    return good(labels=labels)
+
+
 # ---------------------------------------------------------------------------
 @st.composite
 def cases(draw, tier):
@@ -359,7 +419,9 @@ def cases(draw, tier):
         return {"k": "data", "fl": draw(st.sampled_from(FL)),
                 "event": draw(st.sampled_from(
                     ["close_notify", "warning", "fatal", "eof",
-                     "eof_mid_record"])),
+                     "eof_mid_record", "close_inflight",
+                     "close_inflight_ctrl"])),
+                "reply_fails": draw(st.booleans()),
                 "nrec": draw(st.integers(0, 4)),
                 "sender": draw(st.sampled_from(["c", "s"])),
                 "closeSocket": draw(st.booleans()),
@@ -402,3 +464,16 @@ def explicit(tier, seed):
                                "nrec": nrec, "sender": sender,
                                "closeSocket": ia or nrec == 0,
                                "ignoreAbrupt": ia, "desc": 80, "cut": 9}
+        for nrec in (0, 1, 3):
+            for sender in "cs":
+                yield {"k": "data", "fl": fl, "event": "close_inflight",
+                       "nrec": nrec, "sender": sender, "closeSocket": False,
+                       "ignoreAbrupt": False}
+                if nrec == 0:
+                    yield {"k": "data", "fl": fl,
+                           "event": "close_inflight_ctrl", "nrec": 0,
+                           "sender": sender, "closeSocket": False,
+                           "ignoreAbrupt": False}
+                yield {"k": "data", "fl": fl, "event": "close_notify",
+                       "nrec": nrec, "sender": sender, "closeSocket": True,
+                       "ignoreAbrupt": False, "reply_fails": True}
